@@ -61,6 +61,7 @@ class Stats:
         self.caps_hit = []
         self.extra = {}  # free-form, merged by update / sum for ints
         self.label_counts = {}
+        self.fp_counts = {}  # explicit fingerprint (a class of failing inputs / a call site) -> exact count
 
     def part(self, name):
         return self.parts.setdefault(name, {"evaluations": 0})
@@ -71,6 +72,8 @@ class Stats:
         self.n_violations += 1
         label = label or msg.split(":")[0][:60]
         self.label_counts[label] = self.label_counts.get(label, 0) + 1
+        if fingerprint:
+            self.fp_counts[fingerprint] = self.fp_counts.get(fingerprint, 0) + 1
         n_same = sum(1 for v in self.violations if v["label"] == label)
         if len(self.violations) < self.MAX_VIOL and n_same < 6:
             self.violations.append(
@@ -101,6 +104,8 @@ class Stats:
                 self.violations.append(v)
         for k, n in o.label_counts.items():
             self.label_counts[k] = self.label_counts.get(k, 0) + n
+        for k, n in o.fp_counts.items():
+            self.fp_counts[k] = self.fp_counts.get(k, 0) + n
         for s in o.samples:
             if len(self.samples) < 12:
                 self.samples.append(s)
@@ -516,6 +521,9 @@ def run_check(prop_id, tier="quick", seed=0, jobs=None):
             return 2
         confirmed.append(v)
 
+    # exact counts: violations carrying an explicit fingerprint are counted per fingerprint even when the kept list is capped
+    known_fps = {k.get("fingerprint") for k in known if k.get("property") == prop_id}
+    n_known = max(n_known, sum(n for fp, n in st.fp_counts.items() if fp in known_fps))
     n_unlisted = st.n_violations - n_known if st.n_violations >= n_known else len(reported)
     if not reported:
         n_unlisted = 0
